@@ -413,8 +413,11 @@ def check_exact(case, out):
             "interior-knot" if inner else "bezier", "profile=" + case["profile"])
     out.nontrivial = op != "eval" and inner
     klass = f"{op};{kind};{case['profile']}"
-    if case["A"]["num"] == "fracint" and any(abs(x) >= 2 ** 63 for x in lib.walk_numbers(case["A"]["P"])):
-        # Python-int control points beyond the 64-bit range: numpy picks uint64 / float64 for them
+    wA = case["A"]["w"]
+    wmax = max([abs(x) for x in wA if F(x).denominator == 1] + [1]) if wA else 1  # (integral weights are passed as ints)
+    if case["A"]["num"] == "fracint" and any(abs(x) * wmax >= 2 ** 63 for x in lib.walk_numbers(case["A"]["P"])):
+        # Python-int control points (or their products with Python-int weights, the homogeneous coordinates) beyond
+        # the 64-bit range: numpy picks int64 / uint64 / float64 for them
         klass += ";int-points>=2^63"
         out.cls("int-points>=2^63")
     try:
